@@ -24,7 +24,7 @@ func (k *collector) classOf(c Case) map[string]string {
 
 // shrink minimises c.Input (and simplifies the schedule) while the class key stays present.
 func (k *collector) shrink(v violation, maxRuns int) violation {
-	if v.Kind == "hang" || v.Kind == "crash" || len(v.Case.Input) > 64<<10 || os.Getenv("C05X_NOSHRINK") != "" {
+	if v.Kind == "hang" || v.Kind == "crash" || v.Kind == "growth" || len(v.Case.Input) > 64<<10 || os.Getenv("C05X_NOSHRINK") != "" {
 		return v
 	}
 	key := v.Key()
